@@ -21,12 +21,53 @@ EXHAUSTIVE = {"quick": True, "thorough": True}
 SCOPE = {"quick": "L=2, full flavour product for <=2 sources x <=1 callable", "thorough": "L=3"}
 ASSUMPTIONS = ["exit callbacks / context-manager flavours are exercised by C14's case grid (sync and async CMs, exit callables, callbacks)"]
 KINDS = ["list", "seq", "iter", "agen", "aobj"]
-FLAV = ["def", "async", "partial", "obj"]
+FLAV = ["def", "async", "partial", "obj", "objx"]   # objx: callable object whose failure is raised at call time
+
+
+def _groupby_cases(tier):
+    """groupby is the one tool that can be advanced again after its key function raised: the Awaitify decision made
+    on the first call must survive a failing first call"""
+    for keys in ([0, 0, 1, 1, 0], [0, 1], [1, 1, 1]):
+        for fail in (None, 0, 1, 2):
+            yield {"tool": "groupby", "family": "groupby", "keys": keys, "fail_at": fail, "srcs": [], "params": {}}
+
+
+def _run_groupby(case, kind, flavour):
+    from tools import make_fn, mkscript
+    from world import Item, drive, exc_name, make_source
+    log = []
+    items = [("item", Item(i, k)) for i, k in enumerate(case["keys"])]
+    src, _ = make_source(kind, items, 0, log)
+    spec = {"kind": "key", "flavour": flavour}
+    if case["fail_at"] is not None:
+        spec.update(fail_at=case["fail_at"], eid=61)
+    gb = asyncstdlib.groupby(src, make_fn(spec, 0, log, flavour))
+    out = []
+    for _ in range(len(case["keys"]) + 3):
+        res = drive(gb.__anext__())
+        if isinstance(res.exc, StopAsyncIteration):
+            out.append(["stop"])
+            break
+        if res.exc is not None:
+            out.append(["exc", exc_name(res.exc)])
+            continue
+        k, g = res.value
+        got = []
+        while True:
+            r = drive(g.__anext__())
+            if r.exc is not None:
+                if not isinstance(r.exc, StopAsyncIteration):
+                    got.append(["exc", exc_name(r.exc)])
+                break
+            got.append(r.value.id)
+        out.append(["key", k if isinstance(k, int) else type(k).__name__, got])
+    return out
 
 
 def cases(tier, rng):
     L = 2 if tier == "quick" else 3
     yield {"tool": "__all__", "family": "types", "srcs": [], "params": {}}
+    yield from _groupby_cases(tier)
     n = 0
     for case in s1.base_cases(tier, rng, ["list"], s1.cons_exhaust, maxlen=L):
         if case["tool"] == "islice" and (case["params"].get("step", 1) > 1 or (case["params"].get("stop") or 0) > 2):
@@ -96,6 +137,18 @@ def _types_check():
 
 
 def observe(case):
+    if case.get("family") == "groupby":
+        base, diffs, n = None, [], 0
+        for kind in KINDS:
+            for fl in FLAV:
+                r = _run_groupby(case, kind, fl)
+                n += 1
+                if base is None:
+                    base = r
+                elif r != base:
+                    diffs.append([[kind], [fl], r])
+        return {"base": base, "variants": n, "diffs": diffs[:5], "ndiffs": len(diffs),
+                "async": {"out": ["returned", ["n"]], "vis": [["yield", ["i", 1]]]}}
     if case.get("family") == "types":
         return {"types": _types_check(), "async": {"out": ["returned", ["n"]], "vis": []}}
     results = []
@@ -112,7 +165,7 @@ def observe(case):
 
 
 def model_request(case):
-    if case.get("family") == "types" or case["tool"] in s1.NO_MODEL:
+    if case.get("family") in ("types", "groupby") or case["tool"] in s1.NO_MODEL:
         return None
     return tools.model_request(case)
 
@@ -141,11 +194,13 @@ def judge(case, obs, model):
 def features(case, obs):
     if case.get("family") == "types":
         return ["types"]
+    if case.get("family") == "groupby":
+        return ["tool=groupby", "variants=%d" % obs["variants"]]
     return ["tool=" + case["tool"], "variants=%d" % obs["variants"], "faulty" if case.get("faulty") else "fault-free"]
 
 
 def nontrivial(case, obs):
-    return case.get("family") == "types" or bool(obs["base"][0]) or obs["base"][1][0] in ("returned", "raised")
+    return case.get("family") in ("types", "groupby") or bool(obs["base"][0]) or obs["base"][1][0] in ("returned", "raised")
 
 
 def search_cases(broken, rng):
